@@ -14,8 +14,9 @@ import (
 
 type c12Case struct {
 	Tree treeRef `json:"tree"`
-	Op   string  `json:"op"` // setwidth | purge
+	Op   string  `json:"op"` // setwidth | purge | setwidth2 (to W, then the result to W2)
 	W    int     `json:"w,omitempty"`
+	W2   int     `json:"w2,omitempty"`
 }
 
 type loadInfo struct {
@@ -50,6 +51,9 @@ func c12Run(c c12Case) (*eng.Fail, bool) {
 			res = exprtransform.PurgeWidthGadgets(e)
 		} else {
 			res = exprtransform.SetWidth(e, expr.Width(c.W))
+			if c.Op == "setwidth2" {
+				res = exprtransform.SetWidth(res, expr.Width(c.W2))
+			}
 		}
 	})
 	name := c.Op
@@ -63,13 +67,20 @@ func c12Run(c c12Case) (*eng.Fail, bool) {
 	if c.Op == "setwidth" {
 		w = expr.Width(c.W)
 	}
+	if c.Op == "setwidth2" {
+		w = expr.Width(c.W2)
+	}
 	if res.Width() != w {
 		return &eng.Fail{Sig: name + " width " + kindOf(e), What: fmt.Sprintf("%s(%s,%d) = %s has width %d", name, before, c.W, ir.Show(res), res.Width()), Case: c}, false
 	}
 	// value: original adjusted to w
 	for i := range valuations {
 		v := valuations[i]
-		x := ir.Adjust(ir.Eval(e, v.env()), w)
+		x := ir.Eval(e, v.env())
+		if c.Op == "setwidth2" {
+			x = ir.Adjust(x, expr.Width(c.W)) // what the first step cuts off stays cut off
+		}
+		x = ir.Adjust(x, w)
 		y := ir.Eval(res, v.env())
 		if x.Cmp(y) != 0 {
 			return &eng.Fail{Sig: name + " value " + kindOf(e), What: fmt.Sprintf("%s(%s,%d) = %s: under r1=%#x r2=%#x seed=%d original gives %x, result %x",
@@ -87,7 +98,7 @@ func c12Run(c c12Case) (*eng.Fail, bool) {
 
 func init() {
 	checks["C12"] = eng.Check{
-		Rule:        "SetWidth(e,w') for w' in 1..4 (and 5,8,255 on the wide space) and PurgeWidthGadgets(e) on every tree of the C09 spaces; result width and value (original adjusted to w') compared under 9 valuations; memory-load (key, address width, load width) lists compared for purge. Non-trivial = result structurally different from the input.",
+		Rule:        "SetWidth(e,w') for w' in 1..4 (and 5,8,255 on the wide space) and PurgeWidthGadgets(e) on every tree of the C09 spaces, plus chains SetWidth(SetWidth(e,w1),w2) (narrow then widen and the reverse; 6 width pairs on the small spaces, 2 pairs on every 4th (thorough: every) tree of the large ones), expected value = original cut to w1 and then adjusted to w2; result width and value (original adjusted to w') compared under 9 valuations; memory-load (key, address width, load width) lists compared for purge. Non-trivial = result structurally different from the input.",
 		Assumptions: []string{"semantic equality decided on 9 valuations with pseudo-random memory (a changed address changes the bytes read)"},
 		Run: func(r *eng.Run) {
 			forTrees(r, treeSpacesFor(r), func(ref treeRef, e expr.Expr) {
@@ -98,6 +109,20 @@ func init() {
 				}
 				for _, w := range ws {
 					cases = append(cases, c12Case{Tree: ref, Op: "setwidth", W: w})
+				}
+				// chains: narrow, then widen the result again (and the reverse)
+				pairs := [][2]int{{1, 2}, {1, 4}, {2, 4}, {2, 8}, {3, 4}, {4, 2}}
+				if ref.Space == "wide" {
+					pairs = [][2]int{{1, 9}, {8, 16}, {5, 255}, {16, 8}}
+				}
+				if ref.Space == "t2" || ref.Space == "const2" || ref.Space == "t3tiny" {
+					pairs = [][2]int{{1, 2}, {2, 4}}
+					if r.Quick() && ref.Index%4 != 0 {
+						pairs = nil
+					}
+				}
+				for _, pr := range pairs {
+					cases = append(cases, c12Case{Tree: ref, Op: "setwidth2", W: pr[0], W2: pr[1]})
 				}
 				for _, c := range cases {
 					f, changed := c12Run(c)
